@@ -15,6 +15,8 @@ def run_meta(c, spec):
         args = ["meta", "-n", "300" if quick else "8000"]
     out = c.harness("sched", args, timeout=900 if quick else 3000)
     if out:
+        # an alias that outlives its meta process is C06's observation (bin/checks/c06.py), not a statement about callbacks
+        out["monitor"] = [m for m in (out.get("monitor") or []) if "meta-alias" not in (m.get("tags") or [])]
         for n in out.get("notes") or []:
             c.broken.append({"kind": "scheduler-stall", "what": n})
         c.cases("meta", out, M_IMPORTS, "mcase", corr=["corr_meta"], spec=spec, premise=["premise_meta"])
